@@ -30,7 +30,7 @@ ASSUMPTIONS = [
 ]
 TOLERANCES = {"pointwise": "1e-9*|ref| + 1e-12*max|ref| (float64 inputs); 2e-4*max|ref| when a float32 scalar is involved",
               "mass": "1e-4 absolute, error(res/2) <= max(error/2, 1e-5) (calibrated over 809 resolved grids: base error <= 8.8e-6, refined error has a non-monotone floor <= 2.2e-6 from the narrow crosswind Gaussian near the receptor)", "rot90": "1e-9 * max", "z0": "1e-9 relative / exact median"}
-BUDGET = {"quick": dict(examples=500, shards=1), "thorough": dict(examples=4000, shards=16)}
+BUDGET = {"quick": dict(examples=1200, shards=1), "thorough": dict(examples=12000, shards=16)}
 
 TYPES = ("float", "float", "int", "np.float64", "np.float32", "np.int64", "np.int32")
 
